@@ -1770,7 +1770,39 @@ def _kind_marker(e):
     return ks
 
 
-@rule('C17.select', floor=22)
+def name_form(arg):
+    """'prom' | 'abs' | None: name space of the first argument of a check_path call inside a selection."""
+    if isinstance(arg, ast.Call) and astx.callee_attr(arg) == 'abs2prom':
+        return 'prom'
+    if not isinstance(arg, ast.Name):
+        return None
+    binders = []
+    for a in astx.ancestors(arg):
+        if isinstance(a, (ast.ListComp, ast.SetComp, ast.GeneratorExp, ast.DictComp)):
+            binders += [(g.target, g.iter) for g in a.generators]
+        elif isinstance(a, ast.For):
+            binders.append((a.target, a.iter))
+        elif isinstance(a, (ast.FunctionDef, ast.AsyncFunctionDef)):
+            break
+    for tgt, it in binders:
+        itn = astx.callee_attr(it) if isinstance(it, ast.Call) else None
+        if isinstance(tgt, ast.Name) and tgt.id == arg.id:
+            if itn in ('abs_iter', '_abs_iter'):
+                return 'abs'
+            if itn == 'prom_iter':
+                return 'prom'
+            p = astx.path(it) or ''
+            if p.rsplit('.', 1)[-1] in ('_residuals', '_outputs', '_inputs'):
+                return 'abs'        # iterating a vector yields absolute names
+            return None
+        if isinstance(tgt, ast.Tuple) and itn == 'abs2prom_iter' and len(tgt.elts) == 2:
+            for i, e in enumerate(tgt.elts):
+                if isinstance(e, ast.Name) and e.id == arg.id:
+                    return ('abs', 'prom')[i]
+    return None
+
+
+@rule('C17.select', floor=25)
 def select(repo, out):
     """Selection functions: every check_path gets (name, includes, excludes); each kind is selected under its option from names of that kind; desvars/objectives/constraints are added under exactly their options."""
     for (srel, sqn), _, optmap in PAIRS:
@@ -1837,6 +1869,40 @@ def select(repo, out):
                 out.unsure(f, ads[0][0], f"shape of the '{K}' selection not recognised")
             else:
                 out.ok(f, ads[0][0], f"'{K}' selected from {K} names through includes/excludes ({len(ads)} definition(s))")
+    # (d) outputs and residuals of one requester are matched in the same name space (promoted or absolute)
+    for (srel, sqn), _, optmap in PAIRS:
+        s = _memo(repo, ('S', srel, sqn), lambda: Selection(repo, srel, sqn))
+        f = s.fn
+        forms = {}
+        unknown = None
+        for K in ('output', 'residual'):
+            forms[K] = []
+            for st, v in s.adders(K):
+                if not isinstance(st, ast.Assign) or v is None:
+                    continue
+                for c in astx.calls(v):
+                    if astx.callee_attr(c) == 'check_path' and c.args:
+                        fm = name_form(c.args[0])
+                        if fm is None:
+                            unknown = c
+                        forms[K].append((fm, c))
+        if unknown is not None:
+            out.unsure(f, unknown, f'name space of `{astx.src(unknown.args[0])}` not recognised')
+            continue
+        fo = {fm for fm, _ in forms['output']}
+        if len(fo) != 1:
+            out.unsure(f, s.stmt, f'outputs are matched as {sorted(fo)}')
+            continue
+        want = next(iter(fo))
+        odd = [c for fm, c in forms['residual'] if fm != want]
+        if odd:
+            out.bad(f, odd[0], f'residual names are matched against includes/excludes as '
+                    f'{"absolute" if want == "prom" else "promoted"} names (`{astx.src(odd[0].args[0])}`) while the '
+                    f'outputs branch of the same requester matches {"promoted" if want == "prom" else "absolute"} '
+                    'names: patterns that select an output do not select its residual', key='select-namespace')
+        else:
+            out.ok(f, forms['output'][0][1], f'outputs and residuals matched as {want} names '
+                   f'({len(forms["output"])}+{len(forms["residual"])} sites)')
     # (c) variables of interest of the driver
     s = _memo(repo, ('S', DRV, 'Driver._get_vars_to_record'), lambda: Selection(repo, DRV, 'Driver._get_vars_to_record'))
     f, flow = s.fn, s.flow
@@ -2177,7 +2243,7 @@ COUNTER_WRITERS = {(CREC, 'CaseRecorder.__init__'): 'initialised to 0',
 ROUTE_FILES = [CREC, REC, 'openmdao/recorders/recording_manager.py']
 
 
-@rule('C17.route', floor=7)
+@rule('C17.route', floor=8)
 def route(repo, out):
     """CaseRecorder.record_iteration bumps the global counter exactly once before routing requester class X to record_iteration_<x>, which stores into the <x> table; nobody else writes the counter."""
     sch = Schema(repo)
@@ -2232,6 +2298,55 @@ def route(repo, out):
             out.unsure(f, c, f'SqliteRecorder.{nm} does not insert into global_iterations')
         else:
             out.ok(f, c, f'{cls} -> {nm} -> {stored[nm][1][0]} / {kind!r}, counter += 1 first')
+    # a reset (direct, or through super().startup()) only on the not-yet-started path of SqliteRecorder.startup
+    base = repo.func(CREC, 'CaseRecorder.startup')
+    base_resets = any(isinstance(t, ast.Attribute) and t.attr == '_counter'
+                      for st in astx.walk_stmts(base.node.body) if isinstance(st, (ast.Assign, ast.AugAssign))
+                      for t in astx.assigned_targets(st))
+    sf = repo.func(REC, 'SqliteRecorder.startup')
+    sg = cfgm.build(sf)
+
+    def resets(n):
+        if n.kind == 'stmt' and isinstance(n.ast, (ast.Assign, ast.AugAssign)) and \
+                any(isinstance(t, ast.Attribute) and t.attr == '_counter' for t in astx.assigned_targets(n.ast)):
+            return True
+        return base_resets and any(astx.callee_attr(c) == 'startup' and isinstance(astx.receiver(c), ast.Call) and
+                                   astx.call_name(astx.receiver(c)) == 'super' for c in n.calls())
+    rnodes = sg.where(resets)
+
+    def started_test(n):
+        """+1 / -1 if node tests  x in self._started  /  x not in self._started ; else 0."""
+        if n.kind != 'test' or not isinstance(n.ast, ast.If):
+            return 0
+        t, sign = n.ast.test, 1
+        if isinstance(t, ast.UnaryOp) and isinstance(t.op, ast.Not):
+            t, sign = t.operand, -1
+        if isinstance(t, ast.Compare) and len(t.ops) == 1 and isinstance(t.ops[0], (ast.In, ast.NotIn)) and \
+                astx.path(t.comparators[0]) == 'self._started':
+            return sign * (1 if isinstance(t.ops[0], ast.In) else -1)
+        return 0
+    tests = [n for n in sg.nodes if started_test(n)]
+    if not rnodes:
+        out.unsure(sf, sf.node, 'SqliteRecorder.startup neither resets the counter nor calls super().startup()')
+    elif not tests:
+        out.bad(sf, rnodes[0].ast, 'the case counter is reset on every startup: there is no `in self._started` '
+                'guard, so a second final_setup restarts Case.counter while global_iterations keeps growing',
+                key='counter-restart')
+    else:
+        started_side = [m for t in tests for m, lab in sg.succ[t]
+                        if lab == ('true' if started_test(t) > 0 else 'false')]
+        reach_started = sg.reach(started_side, labels=cfgm.noexc)
+        for rn in rnodes:
+            w = sg.dominated_by(rn, tests, labels=cfgm.noexc)
+            if w is not None:
+                out.bad(sf, rn.ast, 'the case counter is reset (`' + astx.src(rn.ast, 60) + '`) before the '
+                        '`in self._started` test: every later final_setup with the same recorder restarts '
+                        'Case.counter, so counters repeat and the hierarchy walk of the reader (range(0, counter)) '
+                        'drops the cases of later runs', key='counter-restart')
+            elif rn in reach_started:
+                out.bad(sf, rn.ast, 'the case counter is reset on the already-started path', key='counter-restart')
+            else:
+                out.ok(sf, rn.ast, 'counter reset only when this requester has not been started before')
     # who writes the counter
     for rel in ROUTE_FILES:
         if not repo.exists(rel):
@@ -2485,6 +2600,24 @@ selftest(
     Mutant('pa-case', CASE, "self.parent = '|'.join(parts[:-2])", "self.parent = '|'.join(parts[:-1])", 'C17.parent'),
     Mutant('pa-nested', RDR, "parent_coord = '|'.join(case_coord.split('|')[:-2])", "parent_coord = '|'.join(case_coord.split('|')[:-3])",
            'C17.parent'),
+    # ---- pre-fix shapes of the two C17 findings repaired in /repo
+    Mutant('ro-list-sources-prefix', RDR, "if not (source == 'root' or source.startswith('root.')):",
+           "if not source.startswith('root'):", 'C17.rooted'),
+    Mutant('ef-output-master-switch', DRV, "    if outputs._names or len(discrete_outputs) > 0:\n        data['output']",
+           "    if opts['record_outputs'] and (outputs._names or len(discrete_outputs) > 0):\n        data['output']",
+           'C17.effective'),
+    # ---- independently seeded changes (name space of the residual-only branch; counter reset on restart)
+    Mutant('se-residual-abs-name', SYS, "                               if check_path(resolver.abs2prom(n, 'output'), incl, excl)]",
+           "                               if check_path(n, incl, excl)]", 'C17.select'),
+    Mutant('se-drv-residual-abs', DRV, "if check_path(resolver.abs2prom(n, 'output'), incl, excl)]", "if check_path(n, incl, excl)]",
+           'C17.select'),
+    Mutant('ro-reset-before-guard', REC, "        # we only want to set up recording once for each recording_requester\n        if recording_requester in self._started:\n            return\n\n        super().startup(recording_requester, comm)\n",
+           "        super().startup(recording_requester, comm)\n\n        # we only want to set up recording once for each recording_requester\n        if recording_requester in self._started:\n            return\n",
+           'C17.route'),
+    Mutant('ro-no-started-guard', REC, "        if recording_requester in self._started:\n            return\n\n        super().startup", "        super().startup",
+           'C17.route'),
+    Mutant('ro-reset-on-started', REC, "        if recording_requester in self._started:\n            return\n",
+           "        if recording_requester in self._started:\n            self._counter = 0\n            return\n", 'C17.route'),
     # ---- twins
     Twin('tw-rename-local', REC, "inputs_text = json.dumps(inputs)\n            residuals_text = json.dumps(residuals)\n\n            with self.connection as c:\n                c = c.cursor()  # need a real cursor for lastrowid\n\n                c.execute(\"INSERT INTO driver_iterations(counter, iteration_coordinate, \"\n                          \"timestamp, success, msg, inputs, outputs, residuals) \"\n                          \"VALUES(?,?,?,?,?,?,?,?)\",\n                          (self._counter, self._iteration_coordinate,\n                           metadata['timestamp'], metadata['success'], metadata['msg'],\n                           inputs_text, outputs_text, residuals_text))",
          "in_txt = json.dumps(inputs)\n            residuals_text = json.dumps(residuals)\n\n            with self.connection as c:\n                c = c.cursor()  # need a real cursor for lastrowid\n\n                c.execute(\"INSERT INTO driver_iterations(counter, iteration_coordinate, \"\n                          \"timestamp, success, msg, outputs, inputs, residuals) \"\n                          \"VALUES(?,?,?,?,?,?,?,?)\",\n                          (self._counter, self._iteration_coordinate,\n                           metadata['timestamp'], metadata['success'], metadata['msg'],\n                           outputs_text, in_txt, residuals_text))"),
@@ -2516,10 +2649,13 @@ selftest(
          "myinputs = sorted(n for n in resolver.abs_iter('input')\n                                   if check_path(n, incl, excl))"),
     Twin('tw-order-default-asc', RDR, '" ORDER BY id ASC")  # nosec trusted input', '" ORDER BY id")  # nosec trusted input'),
     Twin('tw-row-source-flip', RDR, "if record_type == table and row == row_id:", "if row_id == row and table == record_type:"),
-    # accepted repair idioms for the two findings on the unchanged tree (the finding disappears, nothing new appears)
-    Twin('fixed-rooted-list-sources', RDR, "if not source.startswith('root'):", "if not (source == 'root' or source.startswith('root.')):"),
-    Twin('fixed-effective-output-a', DRV, "if opts['record_outputs'] and (outputs._names or len(discrete_outputs) > 0):",
-         "if (opts['record_outputs'] or filt['output']) and (outputs._names or len(discrete_outputs) > 0):"),
-    Twin('fixed-effective-output-b', DRV, "if opts['record_outputs'] and (outputs._names or len(discrete_outputs) > 0):",
-         "if outputs._names or len(discrete_outputs) > 0:"),
+    # the two findings of the first round are repaired in /repo: their pre-fix shapes are mutants now
+    Twin('tw-effective-output-explicit', DRV, "    if outputs._names or len(discrete_outputs) > 0:\n        data['output']",
+         "    if (opts['record_outputs'] or filt['output']) and (outputs._names or len(discrete_outputs) > 0):\n        data['output']"),
+    Twin('tw-rooted-flipped', RDR, "                        if not (source == 'root' or source.startswith('root.')):\n                            sources.add('root.' + source)\n                        else:\n                            sources.add(source)",
+         "                        if source == 'root' or source.startswith('root.'):\n                            sources.add(source)\n                        else:\n                            sources.add('root.' + source)"),
+    Twin('tw-residual-prom-temp', SYS, "                myresiduals = [n for n in self._residuals._abs_iter()\n                               if check_path(resolver.abs2prom(n, 'output'), incl, excl)]",
+         "                a2p = resolver.abs2prom\n                myresiduals = [n for n in self._residuals._abs_iter()\n                               if check_path(a2p(n, 'output'), incl, excl)]".replace("a2p = resolver.abs2prom\n                ", "").replace("a2p(n", "self._resolver.abs2prom(n")),
+    Twin('tw-started-not-in', REC, "        if recording_requester in self._started:\n            return\n\n        super().startup(recording_requester, comm)\n",
+         "        if recording_requester not in self._started:\n            super().startup(recording_requester, comm)\n        else:\n            return\n"),
 )
